@@ -48,6 +48,12 @@ func init() {
 				switch c.Op {
 				case "validate":
 					o.Out, err = pkg.Validate(c.Profile, c.Data, false, nil)
+				case "validateCompiled":
+					h, cerr := pkg.CompileProfile(c.Profile, false, nil)
+					err = cerr
+					if err == nil {
+						o.Out, err = pkg.ValidateCompiled(h, c.Data, false, nil)
+					}
 				case "generate":
 					verifexport.GenReset()
 					o.Out, err = verifexport.GenerateRego(c.Profile)
